@@ -26,6 +26,10 @@
    to all rules and the variable is only reset at the top of the next phase, so post-phase rules run in
    every main-phase loop, not only in the first one as the comment in the code says.  Sticky = FALSE is
    the documented intent; with it idempotence additionally needs PostClosed (see below).
+   fix_even_unparsable: apply_fixes waives the re-parse validation only for a section that was *already*
+   unparsable (core/linter/fix.py: "Was it already unparsable?").  Every version of this model is a tree that
+   parses, so `ok` is the validation verdict whatever the flag says; the replay (vf/fixloop_replay.py) runs each
+   emitted behaviour under one value of the flag, alternating, and requires the same behaviour.
    Not modelled: the `compute_anchor_edit_info` conflict branch (pragma: no cover), rule timings.
 
    Tables are chosen lazily (Lazy = TRUE): an entry is picked the first time the loop consults it, so
